@@ -2,6 +2,7 @@
 from __future__ import annotations
 
 import datetime as D
+import itertools
 import warnings
 
 from hypothesis import strategies as st
@@ -53,6 +54,7 @@ args_ym_cancel = st.builds(
 args_huge = st.fixed_dictionaries({"days": st.integers(-999999000, 999999000)}, optional={"seconds": st.integers(-86399, 86399), "microseconds": st.integers(-999999, 999999)})
 
 COMP = ("weeks", "remaining_days", "hours", "minutes", "remaining_seconds", "microseconds")
+PERMS = list(itertools.permutations(range(6)))
 
 
 class Normalise(Sub):
@@ -95,6 +97,12 @@ class Normalise(Sub):
         tot = ((((comps[0] * 7 + comps[1]) * 24 + comps[2]) * 60 + comps[3]) * 60 + comps[4]) * US + comps[5]
         req(tot == part, "components do not sum to the year/month-free part", components=comps, sum_us=tot, part_us=part)
         req(all(type(c) is int for c in comps), "a component is not an int", components=[type(c).__name__ for c in comps])
+        # the accessors are lazy and cache: a fresh equal object read in another order (one of the 720, chosen by the arguments) must report the same
+        order = PERMS[(sum(abs(v) * (i + 3) for i, v in enumerate(kw.values())) + len(kw)) % len(PERMS)]
+        fresh = Duration(**kw)
+        seen = {COMP[i]: getattr(fresh, COMP[i]) for i in order}
+        req(tuple(seen[c] for c in COMP) == comps and tuple(getattr(fresh, c) for c in COMP) == comps, "components depend on the order in which the accessors are read",
+            order=[COMP[i] for i in order], first_read=seen, canonical_order=dict(zip(COMP, comps)))
         d2 = Duration(years=d.years, months=d.months, weeks=d.weeks, days=d.remaining_days, hours=d.hours, minutes=d.minutes,
                       seconds=d.remaining_seconds, microseconds=d.microseconds)
         req(raw(d2) == raw(d) and (d2.years, d2.months) + tuple(getattr(d2, c) for c in COMP) == (y, mo) + comps,
